@@ -26,25 +26,25 @@ import (
 )
 
 type c04Call struct {
-	N         int    `json:"n"`
-	StartAt   int    `json:"start_ms"`
-	CancelAt  int    `json:"cancel_ms"`  // -1: never cancelled
-	ReleaseAt int    `json:"release_ms"` // sdk mode: handler released (-1 never, until cancelled/closed); script: response instant (-1 never)
-	Peer      string `json:"peer,omitempty"` // script mode: answer | never | late | stall-notify | stall-notify-forever
-	Dir       string `json:"dir,omitempty"`  // sdk mode: "" client->server tool call; "s2c": server->client call issued inside a tool handler
-	ByDeadline bool  `json:"by_deadline,omitempty"` // the call's context ends by its deadline instead of an explicit cancel
+	N          int    `json:"n"`
+	StartAt    int    `json:"start_ms"`
+	CancelAt   int    `json:"cancel_ms"`             // -1: never cancelled
+	ReleaseAt  int    `json:"release_ms"`            // sdk mode: handler released (-1 never, until cancelled/closed); script: response instant (-1 never)
+	Peer       string `json:"peer,omitempty"`        // script mode: answer | never | late | stall-notify | stall-notify-forever
+	Dir        string `json:"dir,omitempty"`         // sdk mode: "" client->server tool call; "s2c": server->client call issued inside a tool handler
+	ByDeadline bool   `json:"by_deadline,omitempty"` // the call's context ends by its deadline instead of an explicit cancel
 }
 
 type c04Spec struct {
-	Mode      string    `json:"mode"` // sdk | script
-	Transport string    `json:"transport,omitempty"`
-	Calls     []c04Call `json:"calls"`
-	EndAt     int       `json:"end_ms"`
-	NoStandaloneSSE bool `json:"no_standalone_sse,omitempty"`
-	Version   string    `json:"version,omitempty"` // sdk mode: requested protocol version ("" = the client's default)
-	Propagate bool      `json:"propagate,omitempty"` // stateless HTTP: StreamableHTTPOptions.PropagateRequestCancellation
-	BlockAt   int       `json:"block_at_ms,omitempty"`  // sdk mode: a client notification sent at this instant whose server handler blocks ...
-	BlockMs   int       `json:"block_ms,omitempty"`     // ... for this long (0: none): cancellation notices must not queue behind it
+	Mode            string    `json:"mode"` // sdk | script
+	Transport       string    `json:"transport,omitempty"`
+	Calls           []c04Call `json:"calls"`
+	EndAt           int       `json:"end_ms"`
+	NoStandaloneSSE bool      `json:"no_standalone_sse,omitempty"`
+	Version         string    `json:"version,omitempty"`     // sdk mode: requested protocol version ("" = the client's default)
+	Propagate       bool      `json:"propagate,omitempty"`   // stateless HTTP: StreamableHTTPOptions.PropagateRequestCancellation
+	BlockAt         int       `json:"block_at_ms,omitempty"` // sdk mode: a client notification sent at this instant whose server handler blocks ...
+	BlockMs         int       `json:"block_ms,omitempty"`    // ... for this long (0: none): cancellation notices must not queue behind it
 }
 
 func genC04(r *vh.Rand) c04Spec {
